@@ -13,6 +13,12 @@ import Refine.Model.GatherMeshb
                M (type node id gref p0 p1)*M                 geometry associations in ref_geom index order (node = global)
                CAD                                           `-` or hex bytes (ref_geom_cad_data of that rank)
       → `ok HEX` (the bytes of the file) | `<status>` | `hang` | `bad-op`
+    export_meshb <same arguments>, np = 1, vertices listed as global 0..N-1 in this order, all of part 0, rbl ≤ 0 or ≥ 32:
+      the harness runs the SERIAL writer ref_export_by_extension on that grid.  The model side is the same `gatherMeshb`:
+      by `Props.C08Gather.gatherMeshb_eq_encode` it equals `encodeMeshb v (globalMesh d)`, and for this world `globalMesh d`
+      is the grid itself (local index = global id, every cell and record owned by the one rank), whose serial file is
+      `encodeMeshb` (tied to ref_export_meshb by the stream `meshb_write`).  So this op compares the serial C writer with
+      the parallel writer's model directly: "serial and parallel writers produce the same file".
 -/
 namespace Drivers.GatherMeshb
 open Drivers.Proto Refine.Model.Meshb Refine.Model.Par Refine.Model.GatherMeshb
@@ -128,7 +134,13 @@ def parseRank (N : Nat) (g : List String) : Option Rank :=
         | [] => none
   | [] => none
 
-def gatherOp (ws : List String) : String :=
+/-- `export_meshb`: one rank holding the vertices `0..N-1` in this order, all of part 0 -/
+def identityWorld (N : Nat) (ranks : List Rank) : Bool :=
+  match ranks with
+  | [rk] => rk.nodes.map (fun nd => (nd.global, nd.part)) == (List.range N).map fun g => (g, 0)
+  | _ => false
+
+def gatherOp (serial : Bool) (ws : List String) : String :=
   let bad := "bad-op"
   match ws with
   | nps :: rbls :: mvs :: twods :: ns :: rest =>
@@ -141,6 +153,7 @@ def gatherOp (ws : List String) : String :=
         match gs.mapM (parseRank N) with
         | none => bad
         | some ranks =>
+          if serial && (!(identityWorld N ranks) || (0 < rbl && rbl < 32) || N < 1) then bad else
           match gatherMeshb addBits rbl (mv : Int) ⟨twod == 1, N, ranks⟩ with
           | .hang => "hang"
           | .fail st => st.name
@@ -150,7 +163,8 @@ def gatherOp (ws : List String) : String :=
 
 def step (_ : Unit) (line : String) : Unit × String :=
   match words line with
-  | "gather_meshb" :: rest => ((), gatherOp rest)
+  | "gather_meshb" :: rest => ((), gatherOp false rest)
+  | "export_meshb" :: rest => ((), gatherOp true rest)
   | _ => ((), "bad-op")
 
 def run (_ : List String) : IO UInt32 := do
